@@ -46,7 +46,7 @@ def plan(tier: str, seed: int):
              "args": {"n": 60, "archs": 70}, "timeout": 1500}
             for i in range(2)]
     return [{"name": f"jit{i}", "engine": "jit",
-             "args": {"n": 6000, "archs": 40}, "timeout": 3400}
+             "args": {"n": 15000, "archs": 60}, "timeout": 3400}
             for i in range(12)] + [
         {"name": f"py{i}", "engine": "py",
          "args": {"n": 400, "archs": 600}, "timeout": 3400}
